@@ -109,6 +109,7 @@ pub struct Stats {
   /// a few explored histories written out (the deepest ones met by each worker)
   pub samples: Vec<Value>,
   pub found_path: Option<Vec<PEvent>>,
+  pub unconfirmed_divergences: usize,
 }
 
 impl Stats {
@@ -125,6 +126,7 @@ impl Stats {
     self.digests.extend_from_slice(&o.digests);
     for s in &o.samples { if self.samples.len() < 12 { self.samples.push(s.clone()); } }
     if self.found_path.is_none() { self.found_path = o.found_path.clone(); }
+    self.unconfirmed_divergences += o.unconfirmed_divergences;
   }
 }
 
@@ -372,18 +374,28 @@ pub fn explore_program(prog: &Prog, class: Class, cfg: &HistCfg, stats: &mut Sta
             what: format!("re-execution of step {} of the history produced a different trace", i),
             replay: json!({"engine": "hist", "program": prog.to_json(), "history": path_json(&path), "diverging_step": i}),
           };
-          // Diagnostics: re-execute the path three more times and record which observations differ.
-          {
-            let mut txt = format!("program {}\nhistory {:?}\ndiverging step {}\nrecorded digest {:016x}, now {:016x}\n", prog.short(), path_strings(&path), i, d, step_digest(&j.steps[i]));
-            for run in 0..3 {
-              let again = judge_path(prog, class, cfg, &path, crashes_used);
-              let st = &again.steps[i];
+          // Confirmation: re-execute the path six more times. The divergence is confirmed when the recorded digest
+          // shows up again or the re-executions disagree among themselves (two outcomes that both recur / several
+          // outcomes); a recorded digest that never recurs while six executions agree is counted as unconfirmed
+          // (reported in the evidence with a diagnostics file) and the agreeing trace becomes the reference.
+          let now = step_digest(&j.steps[i]);
+          let mut seen_digests: Vec<u64> = vec![now];
+          let mut txt = format!("program {}\nhistory {:?}\ndiverging step {}\nrecorded digest {:016x}, now {:016x}\n", prog.short(), path_strings(&path), i, d, now);
+          for run in 0..6 {
+            let again = judge_path(prog, class, cfg, &path, crashes_used);
+            let st = &again.steps[i];
+            seen_digests.push(step_digest(st));
+            if run < 2 {
               txt.push_str(&format!("--- re-run {}: digest {:016x}\noutcome {:?}\npost_cells {:?}\ndep_errors {:?}\ndump {}\nrec2 {:?}\nevt {:?}\nlog {:#?}\n", run, step_digest(st), st.outcome, st.post_cells, st.dep_errors, st.dump.to_json(), st.rec2, st.evt, st.log));
             }
-            let st = &j.steps[i];
-            txt.push_str(&format!("--- the diverging execution: digest {:016x}\noutcome {:?}\npost_cells {:?}\ndep_errors {:?}\ndump {}\nrec2 {:?}\nevt {:?}\nlog {:#?}\n", step_digest(st), st.outcome, st.post_cells, st.dep_errors, st.dump.to_json(), st.rec2, st.evt, st.log));
-            let _ = std::fs::create_dir_all(format!("{}/tmp", crate::common::verif_dir()));
-            let _ = std::fs::write(format!("{}/tmp/divergence-{}-{}.txt", crate::common::verif_dir(), cfg.prop.name(), std::process::id()), txt);
+          }
+          txt.push_str(&format!("digests of the re-executions: {:x?}\n", seen_digests));
+          let _ = std::fs::create_dir_all(format!("{}/tmp", crate::common::verif_dir()));
+          let _ = std::fs::write(format!("{}/tmp/divergence-{}-{}.txt", crate::common::verif_dir(), cfg.prop.name(), std::process::id()), txt);
+          let confirmed = seen_digests.iter().any(|x| x == d) || seen_digests.iter().any(|x| *x != now);
+          if !confirmed {
+            stats.unconfirmed_divergences += 1;
+            continue;
           }
           if cfg.prop == Prop::C16 { sink(v); return; }
           engine_error(&format!("non-reproducible execution (not a verdict for {}): program {} history {:?} step {}", cfg.prop.name(), prog.short(), path_strings(&path), i));
@@ -505,6 +517,7 @@ pub fn fill_evidence(rep: &mut Report, cfg: &HistCfg, stats: &Stats, programs: &
     "bottom_up_builds": stats.in_scope_bottom_up,
   }));
   rep.set("prefix_replays_compared", json!(stats.replays_checked));
+  rep.set("unconfirmed_one_off_divergences", json!(stats.unconfirmed_divergences));
   rep.set("bounds", json!({
     "history_depth": cfg.depth, "max_roots_per_session": cfg.max_roots, "bottom_up": cfg.bottom_up, "bu_then": cfg.bu_then, "bu_pre": cfg.bu_pre,
     "over_report": cfg.bu_over_report, "set_fail": cfg.set_fail, "crashes_per_history": cfg.crashes, "state_cap_per_program": cfg.state_cap, "wall_cap_s": cfg.wall_cap,
